@@ -22,4 +22,5 @@ b8_extra_version_load C02 C03 C18 C04
 b10_version_release C04 C02 C11
 b11_requery_once C08 C12 C13 C15 C01 C09 C10
 b12_now_retries_breach C12 C14 C05 C06 C17 C01
+b13_shortcut_not_always_taken C18 C02 C03 C11
 LIST
